@@ -21,6 +21,7 @@ import (
 	"runtime"
 	"strings"
 	"sync"
+	"time"
 
 	webdav "github.com/emersion/go-webdav"
 
@@ -265,7 +266,15 @@ func main() {
 							cur = st.Post
 						}
 					} else {
-						clientCall(cli, sb, r)
+						// a call that does not return is the end of the run: it is reported as such (exit 0, "hang" in the summary)
+						fin := make(chan struct{})
+						go func() { clientCall(cli, sb, r); close(fin) }()
+						select {
+						case <-fin:
+						case <-time.After(90 * time.Second):
+							fmt.Printf("{\"recorded\":%d,\"hang\":\"client %s, operation %d (%s) did not return within 90 s\"}\n", total, key, op, r.M)
+							os.Exit(0)
+						}
 						post := dav.NormEntries(sb.Snapshot())
 						xs := cap.take(key)
 						for xi, x := range xs {
